@@ -28,6 +28,29 @@ def enforced_table(ck):
     return t[0]
 
 
+KERNEL = "export.kread\n  push.2 mem_load drop\nend\nexport.kwrite\n  push.9.9.9.9 push.2 mem_storew dropw\nend\n"
+
+
+def memory_programs():
+    """memory chiplet row pairs of every kind (read / write x same address / new address / new context), including first
+    reads in a fresh context right after rows of another context that hold zeros or non-zero words"""
+    P = []
+
+    def add(name, src, kernel=None):
+        P.append({"src": src, "kernel": kernel, "inputs": [], "adv": [], "class": "memory:" + name})
+    add("ctx-read-after-zero-read", "proc.f push.3 mem_load drop end begin push.5 mem_load drop call.f end")
+    add("ctx-read-after-write", "proc.f push.5 mem_load drop push.3 mem_load drop end begin push.1.2.3.4 push.5 mem_storew dropw call.f end")
+    add("ctx-write-first", "proc.f push.8.7.6.5 push.3 mem_storew dropw push.3 mem_load drop end begin push.3 mem_load drop call.f push.3 mem_load drop end")
+    add("two-calls", "proc.f push.3 mem_load drop push.4 mem_loadw end proc.g push.1 push.3 mem_store push.3 mem_load drop end begin padw call.f call.g call.f dropw end")
+    add("nested", "proc.h push.7 mem_load drop end proc.g call.h push.7 mem_load drop push.2 push.7 mem_store end begin push.7 mem_load drop call.g push.7 mem_load drop end")
+    add("locals", "proc.f.2 push.5 loc_store.0 loc_load.1 drop loc_load.0 drop end proc.g.1 loc_load.0 drop exec.f end begin call.g call.f push.0 mem_load drop end")
+    add("syscall-read", "begin push.2 mem_load drop syscall.kread push.2 mem_load drop end", KERNEL)
+    add("syscall-from-call", "proc.f push.2 mem_load drop syscall.kwrite push.2 mem_load drop syscall.kread end begin call.f push.2 mem_load drop end", KERNEL)
+    add("dyncall", "proc.f push.6 mem_load drop end begin push.6 mem_load drop procref.f dyncall dropw end")
+    add("stream", "proc.f padw padw padw push.10 movdn.12 mem_stream dropw dropw dropw drop end begin push.1.2.3.4 push.10 mem_storew dropw call.f padw push.11 mem_loadw dropw end")
+    return P
+
+
 def run(tier, replay=None):
     ck = Check("C04", tier)
     ck.rule = "a case = (row of an honest trace, enforced cell, wrong value); distinct = distinct (operation, depth regime, cell)"
@@ -41,6 +64,7 @@ def run(tier, replay=None):
         progs = progen.op_at_depth(depths=(16, 17, 18, 19, 21, 40) if thorough else (16, 17, 18), rng_seed=seed())
         progs += progen.depth_sweep(depths=(0, 17, 18, 24) if thorough else (17,), rng_seed=seed())
         progs += progen.corpus(seed() + 4, 160 if thorough else 24, nstmts=14 if thorough else 10)
+        progs += memory_programs()
     inp = os.path.join(wd, "perturb_scenarios.ndjson")
     vmtrace.write_scenarios(progs, inp, {"seed": seed()})
     lines = open(inp).read()
@@ -77,6 +101,8 @@ def run(tier, replay=None):
     ck.extra.update({"alterations_evaluated": total, "undetected": und, "operation_regime_pairs_exercised": len(have),
                      "operation_regime_pairs_not_exercised": ["%s/%s" % x for x in missing][:60], "programs": len(progs)})
     hard = [x for x in missing if x[0] not in ("PIPE", "ADVPOP", "ADVPOPW", "MRUPDATE", "MPVERIFY", "HALT", "DYN", "RESPAN")]
+    chipwant = {("chip:" + k, v) for k, vs in table["chip"].items() for v in vs if vs[v]}
+    hard += sorted(chipwant - have)
     if hard and not replay:
         raise ToolError("operations never exercised by the corpus (the check would be vacuous for them): %s" % hard[:12])
     ck.sample({"operation": "ADD", "regime": "d16", "cells": table["ops"]["ADD"]["d16"]})
